@@ -105,9 +105,13 @@ class Prov:
                 return ("const", "fn:" + c["fn"]["decl"])
             d = c.get("def")
             if d and not c.get("promoted"):
+                if "fv" in c:
+                    return ("const", "%s=f:%s" % (d, c["fv"]))
                 return ("const", d if "v" not in c else "%s=%s" % (d, c["v"]))
             if "v" in c:
                 return ("const", c["v"])
+            if "fv" in c:
+                return ("const", "f:" + c["fv"])     # a float literal; const_int_of does not read it as an integer
             if d:
                 return ("const", "promoted")
             return ("const", "?:" + self.body.tys[c["ty"]])
